@@ -4,7 +4,7 @@ cd /verif
 for d in seeded/*/; do
   id=$(basename $d); prop=$(python3 -c "import json; print(json.load(open('$d/meta.json'))['breaks_property'])")
   extra=""
-  case "$id" in S-C01-*) extra="C05";; S-C02-*) extra="C17";; S-C15-*) extra="C02";; S-C17-*) extra="C02";; S-C19-*) extra="C09";; S-C11-*) extra="C12";; S-C12-*) extra="C11";; esac
+  [ -n "$NOEXTRA" ] || case "$id" in S-C01-*) extra="C05";; S-C02-*) extra="C17";; S-C15-*) extra="C02";; S-C17-*) extra="C02";; S-C19-*) extra="C09";; S-C11-*) extra="C12";; S-C12-*) extra="C11";; esac
   res=$(timeout 3000 ./tools_with_patch.sh $d/patch.diff $prop $extra 2>&1 | grep "^== " | sed 's/ :: C[0-9][0-9] quick.*//' | tr '\n' ' ')
   echo "$id breaks=$prop :: $res"
 done
